@@ -101,7 +101,8 @@ theorem HI_read (kinds : List Kind) (links : List (Nat × List Tgt)) (hwf : Grap
     (Or.inl (Nat.le_refl _)) (Or.inl (Nat.le_refl _)) (ordAt_none g.log g.next g.next hub.2.1 hub.1)
   exact HI_congr _ links _ D0 _ _ key rfl rfl rfl rfl rfl rfl rfl rfl rfl
 
-/-- `Link`: the next derived packet of thread `i`'s current request is registered -/
+/-- `Link`: the next derived packet of thread `i`'s current request is registered (`Link(p, p)` – the action
+returned its input packet – registers nothing) -/
 theorem HI_link (kinds : List Kind) (links : List (Nat × List Tgt)) (hwf : GraphWF5 kinds links) (aa : Nat → A) (g : G)
     (h : HI kinds links aa D0 g) (n : Nat) (nd : Node) (i : Rid) (inbox : List Pkt) (s t : Pid) (ops : List Op)
     (hn : getNode g.nodes n = some nd)
@@ -112,54 +113,56 @@ theorem HI_link (kinds : List Kind) (links : List (Nat × List Tgt)) (hwf : Grap
   have hnl := h.nl n nd hn i _ hg
   have hi63 : i < 63 := Nat.lt_of_lt_of_le (getThread_lt _ _ _ hg) (by rw [h.thr n nd hn]; exact nIn_le _ (h.kindOK n nd hn))
   obtain ⟨hst, hjb', _⟩ := jbm_op nd (aa n) g.next hjb i inbox (.link s t) ops hg acc
-  obtain ⟨cs, hX⟩ := ops_head_link (aa n).reqs i s t ops (by have := hjb.j.th i _ hg; simpa [ThOK] using this)
-  have hst' : s ≠ t := by
-    intro e
-    have hr : ReqA g.log n (.emit (.link s t :: ops)) ⟨s, i, .cells cs⟩ := by
-      rcases hnl.req _ hX rfl with hr | ⟨v, _, _, e3⟩
-      · exact hr
-      · simp [remFor, remOps] at e3
-    simp only [ReqA, remFor, remOps, if_true] at hr
-    obtain ⟨_, _, _, _, _, _, _, a7⟩ := hr
-    have h1 := (a7 t (by simp)).2
-    have h2 := hnl.own _ hX rfl
-    simp only at h2
-    rw [e, h1] at h2
-    simp only [qTag, Option.some.injEq] at h2
-    have h4 : n * 64 + 63 = n * 64 + i := h2
-    exact absurd (Nat.add_left_cancel h4) (Nat.ne_of_gt hi63)
-  have hf := findReq_of_mem (aa n).reqs _ hjb.j.inv.nodup hX
-  have hreqs : (alink (aa n) s t).reqs =
-      updReq s (fun st => match st with | .cells cs => .cells (cs ++ [.linked t]) | s => s) (aa n).reqs := by
-    simp only [alink, hst', if_false, hf]
-    rfl
-  refine ⟨_, hst, ?_⟩
+  obtain ⟨cs, hX, hsh⟩ := ops_head_link (aa n).reqs i s t ops (by have := hjb.j.th i _ hg; simpa [ThOK] using this)
   have hub : Unlogged g.log g.next := h.logBound g.next (Nat.le_refl _)
-  have hfr := alink_frame (aa n) s t
-  have hrdall : ∀ port, ((alink (aa n) s t).reqs.filter (fun x => x.r = port)).map (·.p) =
-      ((aa n).reqs.filter (fun x => x.r = port)).map (·.p) := by
-    intro port; rw [hreqs]; exact readsOf_upd (aa n).reqs s _ port
-  have key := HI_thread_step kinds links hwf aa g h n nd
-    { nd with tr := (tcall nd.tr (opCall acc (.link s t))).1,
-              threads := setThread nd.threads i { inbox := inbox, pc := nextPc ops } } i _
-    { inbox := inbox, pc := nextPc ops } (alink (aa n) s t) g.log g.next g.next hn hg rfl
-    (hths_of_set nd.threads i _ _ hg) hjb'
-    (nlt_link g.log n i (aa n) inbox s t ops hnl hjb.j.inv.nodup cs hX hst')
-    (others_kept (aa n) ⟨s, i, .cells cs⟩ hjb.j.inv.nodup hX _ (alink (aa n) s t) (fun y hy => by rw [hreqs] at hy; exact hy))
-    (by
-      intro x hx
-      rw [hreqs] at hx
-      obtain ⟨x0, hx0, e1, _⟩ := mem_updReq_r s _ (aa n).reqs x hx
-      rw [← e1]; exact h.rdr n nd hn x0 hx0)
-    (Nat.le_refl _)
-    (by
-      rw [heldN_of _ _ i { inbox := inbox, pc := nextPc ops } (by
-          show getThread (setThread nd.threads i _) i = _
-          rw [hths_of_set nd.threads i _ _ hg]; simp),
-        heldN_of nd _ i _ hg, hrdall i])
-    (fun port _ => hrdall port) (fun w => by rw [hfr.2])
-    (logExt_refl g.log g.next hub) (fun _ _ => rfl) h.logBound
-    (Or.inl (Nat.le_refl _)) (Or.inl (Nat.le_refl _)) (ordAt_none g.log g.next g.next hub.2.1 hub.1)
-  exact HI_congr _ links _ D0 _ _ key rfl rfl rfl rfl rfl rfl rfl rfl rfl
+  have hgi' : getThread (setThread nd.threads i { inbox := inbox, pc := nextPc ops }) i =
+      some { inbox := inbox, pc := nextPc ops } := by rw [hths_of_set nd.threads i _ _ hg]; simp
+  refine ⟨_, hst, ?_⟩
+  rcases hsh with hst' | ⟨est, _, w, q, hops, _⟩
+  · have hf := findReq_of_mem (aa n).reqs _ hjb.j.inv.nodup hX
+    have hreqs : (alink (aa n) s t).reqs =
+        updReq s (fun st => match st with | .cells cs => .cells (cs ++ [.linked t]) | s => s) (aa n).reqs := by
+      simp only [alink, hst', if_false, hf]
+      rfl
+    have hfr := alink_frame (aa n) s t
+    have hrdall : ∀ port, ((alink (aa n) s t).reqs.filter (fun x => x.r = port)).map (·.p) =
+        ((aa n).reqs.filter (fun x => x.r = port)).map (·.p) := by
+      intro port; rw [hreqs]; exact readsOf_upd (aa n).reqs s _ port
+    have key := HI_thread_step kinds links hwf aa g h n nd
+      { nd with tr := (tcall nd.tr (opCall acc (.link s t))).1,
+                threads := setThread nd.threads i { inbox := inbox, pc := nextPc ops } } i _
+      { inbox := inbox, pc := nextPc ops } (alink (aa n) s t) g.log g.next g.next hn hg rfl
+      (hths_of_set nd.threads i _ _ hg) hjb'
+      (nlt_link g.log n i (aa n) inbox s t ops hnl hjb.j.inv.nodup cs hX hst')
+      (others_kept (aa n) ⟨s, i, .cells cs⟩ hjb.j.inv.nodup hX _ (alink (aa n) s t) (fun y hy => by rw [hreqs] at hy; exact hy))
+      (by
+        intro x hx
+        rw [hreqs] at hx
+        obtain ⟨x0, hx0, e1, _⟩ := mem_updReq_r s _ (aa n).reqs x hx
+        rw [← e1]; exact h.rdr n nd hn x0 hx0)
+      (Nat.le_refl _)
+      (by rw [heldN_of _ _ i { inbox := inbox, pc := nextPc ops } hgi', heldN_of nd _ i _ hg, hrdall i])
+      (fun port _ => hrdall port) (fun w => by rw [hfr.2])
+      (logExt_refl g.log g.next hub) (fun _ _ => rfl) h.logBound
+      (Or.inl (Nat.le_refl _)) (Or.inl (Nat.le_refl _)) (ordAt_none g.log g.next g.next hub.2.1 hub.1)
+    exact HI_congr _ links _ D0 _ _ key rfl rfl rfl rfl rfl rfl rfl rfl rfl
+  · subst est; subst hops
+    have ea : alink (aa n) s s = aa n := by simp [alink]
+    have hjb2 : JBm { nd with tr := (tcall nd.tr (opCall acc (.link s s))).1,
+                              threads := setThread nd.threads i { inbox := inbox, pc := nextPc [.write w q] } }
+        (aa n) g.next := by
+      have e2 : (acall (aa n) (opCall acc (.link s s))).1 = aa n := ea
+      rw [e2] at hjb'; exact hjb'
+    rw [ea]
+    have key := HI_thread_step kinds links hwf aa g h n nd
+      { nd with tr := (tcall nd.tr (opCall acc (.link s s))).1,
+                threads := setThread nd.threads i { inbox := inbox, pc := nextPc [.write w q] } } i _
+      { inbox := inbox, pc := nextPc [.write w q] } (aa n) g.log g.next g.next hn hg rfl
+      (hths_of_set nd.threads i _ _ hg) hjb2
+      (nlt_link_self g.log n i (aa n) inbox s w q hnl) (fun y hy _ => hy) (h.rdr n nd hn) (Nat.le_refl _)
+      (by rw [heldN_of _ _ i { inbox := inbox, pc := nextPc [.write w q] } hgi', heldN_of nd _ i _ hg])
+      (fun _ _ => rfl) (fun _ => rfl) (logExt_refl g.log g.next hub) (fun _ _ => rfl) h.logBound
+      (Or.inl (Nat.le_refl _)) (Or.inl (Nat.le_refl _)) (ordAt_none g.log g.next g.next hub.2.1 hub.1)
+    exact HI_congr _ links _ D0 _ _ key rfl rfl rfl rfl rfl rfl rfl rfl rfl
 
 end Uniflow.FlowN
